@@ -111,7 +111,9 @@ def skeletons(tier):
                                         ("S", [("x", 1, ("struct", "A")), ("t", 0, ("u", 1))])], impls=can)))
     out.append(("enum_only", Schema(structs=[("S", [("a", 0, ("enum", "E")), ("b", 1, ("enum", "G")), ("c", 2, ("u", 1))])],
                                     enums={"E": [("A", 0), ("Z", "m0")], "G": [("P", "m1"), ("Q", 1), ("R", 0)]}, impls=can)))
-    sig = [("f1", {"endianess": "big", "mux_count": 4, "mux_signal": "f0"})]
+    # `bitstart` is a documented signal option that the packed layout does not honour: the layout stays the tiling
+    sig = [("f1", {"endianess": "big", "mux_count": 4, "mux_signal": "f0"}), ("f1_0", {"bitstart": 40}),
+           ("f0", {"bitstart": 3})]
     out.append(("options", Schema(structs=[("In", [("f1", 0, ("u", 3)), ("h", 1, ("u", 2))]),
                                            ("S", [("f0", "id0", ("u", 8)), ("f1", "id1", ("u", 16)),
                                                   ("f2", "id2", ("arr", ("u", 4), 1)), ("g", "id3", ("struct", "In")),
